@@ -346,8 +346,8 @@ const (
 	rlimitRetry  = 200000000 // last attempt for obligations every solver left open (up to maxRetry per function)
 	wallFirst    = 60 * time.Second
 	wallRetry    = 240 * time.Second
-	wallSecond   = 20 * time.Second // second opinions (z3 4.8.12, cvc5): helpful extras, limited by time
-	maxRetry     = 3
+	wallSecond   = 45 * time.Second // second opinions (z3 4.8.12, cvc5): helpful extras, limited by time
+	maxRetry     = 4
 )
 
 func runSolverLimited(solver, file string, timeout time.Duration) solverResult {
